@@ -175,6 +175,10 @@ DAGS["a_p_two_links_dfix_b"] = T(["A", "P", "B"], [("A", "P"), ("P", "B", ["dfix
                                                    ("P", "B", [], {"out": "o"})], delays_le_steps=True, offsets=False, order=[2, 1, 0])
 # two links with their own delay-to-pull adapter into one consumer (the adapters' pull histories are per link)
 DAGS["two_dpull_inputs"] = T(["A", "B", "C"], [("A", "C", ["dpull1"]), ("B", "C", ["dpull1"])], order=[2, 0, 1])
+# two rings through ONE shared delay adapter behind A's output: A >> dfix >> {B, dfix >> C}; B >> A; C >> A
+RINGS_OK["ring_chord_shared_dfix"] = T([NP("A", off0=True), {"name": "B", "off0": True}, "C"],
+                                       [("A", "B", ["dfix"]), ("A", "C", ["dfix"], {"tap": [0, 0]}), ("B", "A"), ("C", "A")],
+                                       covers=[([0], ["A", "B"]), ([0, 1], ["A", "C"])])
 # rings resolved by a delay-to-pull adapter (delay = n steps of the pulling component + extra)
 RINGS_OK["ring2_dpull3"] = T([NP("A"), "B"], [("A", "B"), ("B", "A", ["dpull3"])])
 RINGS_OK["ring2_dpull2_pulls_at_connect"] = T(["A", NP("B")], [("A", "B"), ("B", "A", ["dpull2"])])
